@@ -22,7 +22,7 @@ EXPLANATION = (
     "bitmap address, a bitmap read that covers start bit + count bits, runs decomposed with the start bit honoured in the first "
     "byte only, bit 1 -> own file / 0 -> parent with a running relative sector; the documented parent location candidates in the "
     "documented order; the Parallels chain is stacked base-first with each image's parent = the previous stream and the top GUID "
-    "taken from the descriptor; a QCOW2 snapshot view installs the snapshot's L1 table on a copy. Does NOT decide overlay equality "
+    "taken from the descriptor; a QCOW2 snapshot view installs the snapshot's L1 table on a copy whose buffered stream state is reset before it is returned. Does NOT decide overlay equality "
     "for arbitrary chains."
 )
 ASSUMPTIONS = ["terms are compared by normal form and randomised identity testing"]
@@ -519,7 +519,9 @@ def qcow2_snapshot(chk: Check):
     on_copy = [s for s in stores if s[2][0] == "call" and s[2][1] in ("ext:copy.copy", "ext:copy.deepcopy")]
     on_live = [s for s in stores if s not in on_copy]
     l1 = R.self_attr(sk, "l1_table")
-    ok = len(on_copy) == 1 and on_copy[0][1] == "l1_table" and on_copy[0][3] == l1 and not on_live
+    BUFSTATE = {"_buf", "_pos", "_pos_align"}
+    l1s = [s for s in on_copy if s[1] == "l1_table"]
+    ok = len(l1s) == 1 and l1s[0][3] == l1 and not on_live and all(s[1] in BUFSTATE for s in on_copy if s not in l1s)
     chk.decide(ok, "K-PATH", "qcow2:snapshot-view-on-copy", ctx.func,
                "the snapshot's L1 table is installed on a copy of the image object, never on the live object" if ok else
                f"stores in open(): on a copy {[s[1] for s in on_copy]}, on live objects {[s[1] for s in on_live]}")
@@ -527,3 +529,21 @@ def qcow2_snapshot(chk: Check):
     rets = [o for o in outs if o[0] == "return"]
     chk.decide(bool(rets) and all(o[3][0] == "call" and o[3][1].startswith("ext:copy.") for o in rets), "K-PATH", "qcow2:snapshot-view-returned", ctx.func,
                "the copy is what is returned")
+    # the copy is a shallow copy of a buffered stream: position and alignment buffer of the live object come along, and
+    # seek(0) keeps a buffer whose aligned position is already 0 - the view must get a fresh stream state
+    cfg = ctx.cfg
+    fresh = []
+    for n in _own_nodes(ctx.func):
+        if isinstance(n, ast.Call):
+            t = R.expr(ctx, n, cfg.node_for(n))
+            if t[0] == "call" and t[1].startswith("ext:") and t[1].endswith("AlignedStream.__init__") and t[2] and \
+                    t[2][0][0] == "call" and t[2][0][1].startswith("ext:copy."):
+                fresh.append(n)
+    for s_ in on_copy:
+        if s_[1] == "_buf" and s_[3] == S.C(None):
+            fresh.append(s_[0])
+    okf = bool(fresh) and bool(rets) and any(all(cfg.dominates(cfg.node_for(f), cfg.node_for(r[1])) for r in rets) for f in fresh)
+    chk.decide(okf, "K-PATH", "qcow2:snapshot-view-fresh-stream-state", fresh[0] if fresh else ctx.func,
+               "the copied stream's buffered state is reset (base initialiser re-run on the copy, or its buffer cleared) before the view is returned"
+               if okf else "the shallow copy keeps the live stream's alignment buffer: seek(0) does not drop a buffer that already sits at "
+               "aligned position 0, so the view's first read returns the active image's bytes")
